@@ -25,16 +25,16 @@ import (
 // if the length cannot be delimited the connection is closed after the response.
 
 type c27Case struct {
-	ID      string `json:"id"`
-	Method  string `json:"method"`  // GET HEAD POST
-	Minor   int    `json:"minor"`   // 0 | 1
-	Conn    string `json:"conn"`    // "" | close | keep-alive
-	Source  string `json:"source"`  // backend | module
-	Status  int    `json:"status"`
-	Blen    int    `json:"blen"`
-	Frame   string `json:"frame"`   // cl | chunked | close | clshort   (backend) ; cl | nocl (module)
-	Bconn   string `json:"bconn"`   // backend's Connection header: "" | close | keep-alive
-	Noise   int    `json:"noise"`   // number of extra end-to-end headers
+	ID     string `json:"id"`
+	Method string `json:"method"` // GET HEAD POST
+	Minor  int    `json:"minor"`  // 0 | 1
+	Conn   string `json:"conn"`   // "" | close | keep-alive
+	Source string `json:"source"` // backend | module
+	Status int    `json:"status"`
+	Blen   int    `json:"blen"`
+	Frame  string `json:"frame"` // cl | chunked | close | clshort   (backend) ; cl | nocl (module)
+	Bconn  string `json:"bconn"` // backend's Connection header: "" | close | keep-alive
+	Noise  int    `json:"noise"` // number of extra end-to-end headers
 }
 
 func c27Body(id string, n int) []byte {
